@@ -54,7 +54,6 @@ Section Codec.
   Variable src : Type.
   Variable compile : src -> code.
   Variable run : code -> option exc.
-  Variable dwb : bool.
 
   Notation fs := (fs src).
   Notation get_cached := (get_cached_code code loads src).
@@ -111,7 +110,7 @@ Section Codec.
   Proof. intro H. simpl. now apply B_truncated. Qed.
 
   (** ** one execution of exec_module on a good file system *)
-  Lemma exec_cases f : good f ->
+  Lemma exec_cases dwb f : good f ->
     let c := compile (f_src f) in
     (exists e, get_cached f = Raise e /\ caught e = true /\ exec dwb f = exec_source dwb f)
     \/ (get_cached f = Ok c /\ f_cache f = Some (written f)
@@ -148,7 +147,7 @@ Section Codec.
 
   (** what the property requires of one (re)load that found the file system [f], returned
       [r] and left the process with Vars defined by [vars] *)
-  Definition load_ok (f : fs) (r : result code src) (vars : option code) : Prop :=
+  Definition load_ok (dwb : bool) (f : fs) (r : result code src) (vars : option code) : Prop :=
     let c := compile (f_src f) in
     executed (r_trace r) = [c] /\ r_raised r = run c /\ vars = Some c
     /\ (forall c', In (EvRunCached c') (r_trace r) ->
@@ -167,12 +166,12 @@ Section Codec.
     intro H. exists d. split; [reflexivity|]. now apply (get_ok_header _ _ _ c).
   Qed.
 
-  Lemma exec_load_ok f before : good f ->
+  Lemma exec_load_ok dwb f before : good f ->
     let r := exec dwb f in
-    load_ok f r (last_executed (r_trace r) before) /\ good (r_fs r).
+    load_ok dwb f r (last_executed (r_trace r) before) /\ good (r_fs r).
   Proof.
     intros G r. subst r. pose proof G as [B S].
-    destruct (exec_cases f G) as [(e & E & C & X)|(E & Hc & X)]; rewrite X.
+    destruct (exec_cases dwb f G) as [(e & E & C & X)|(E & Hc & X)]; rewrite X.
     - (* compiled from source *)
       unfold Cache.exec_source.
       assert (NV : f_cache f = Some (written f) -> in_range (f_mtime f) = true -> in_range (f_size f) = true -> False).
@@ -208,9 +207,9 @@ Section Codec.
   Notation step := (step src).
   Notation proc := (proc code).
   Notation state := (state code src).
-  Notation do_step := (do_step code dumps loads src compile run false dwb).
-  Notation run_hist := (run_hist code dumps loads src compile run false dwb).
-  Notation exec_module_h := (exec_module_h code dumps loads src compile run dwb).
+  Notation do_step := (do_step code dumps loads src compile run false).
+  Notation run_hist := (run_hist code dumps loads src compile run false).
+  Notation exec_module_h := (exec_module_h code dumps loads src compile run).
 
   Fixpoint steps_honest (steps : list step) : Prop :=
     match steps with
@@ -231,20 +230,20 @@ Section Codec.
 
   Lemma exec_h_ok f p msp : good f -> clean p -> sp_stats msp = None ->
     let rp := exec_module_h f p msp in
-    load_ok f (fst rp) (p_vars (snd rp)) /\ good (r_fs (fst rp)) /\ clean (snd rp)
-    /\ p_module (snd rp) = p_module p.
+    load_ok (p_dwb p) f (fst rp) (p_vars (snd rp)) /\ good (r_fs (fst rp)) /\ clean (snd rp)
+    /\ p_module (snd rp) = p_module p /\ p_dwb (snd rp) = p_dwb p.
   Proof.
     intros G [Ci Cm] Hm rp. subst rp. unfold Reload.exec_module_h.
     assert (Hsp : sp_stats (match p_icache p with Some s => s | None => msp end) = None).
     { destruct (p_icache p) as [s|] eqn:E; [now apply Ci|exact Hm]. }
     rewrite Hsp, with_stats_id. cbn [fst snd p_vars p_module].
-    destruct (exec_load_ok f (p_vars p) G) as [L G'].
-    set (r := exec dwb f) in *.
+    destruct (exec_load_ok (p_dwb p) f (p_vars p) G) as [L G'].
+    set (r := exec (p_dwb p) f) in *.
     destruct L as (L1 & L2 & L3 & L4 & L5 & L6 & L7 & L8 & L9 & L10).
     assert (W : with_stats (r_fs r) (path_stats f) = r_fs r).
     { unfold with_stats, path_stats. cbn [fst snd]. rewrite <- L9, <- L10. now destruct (r_fs r). }
     rewrite W. cbn [r_fs r_trace r_raised].
-    split; [|split; [exact G'|split; [|reflexivity]]].
+    split; [|split; [exact G'|split; [|split; reflexivity]]].
     - unfold load_ok. cbn [r_fs r_trace r_raised]. repeat split; assumption.
     - split; [|exact Cm]. cbn [p_icache]. intros sp E. inversion E; subst. exact Hsp.
   Qed.
@@ -253,7 +252,7 @@ Section Codec.
 
   Definition obs_ok (x : fs * obs code src * state) : Prop :=
     match x with
-    | (f, OLoad r, (f', p')) => load_ok f r (p_vars p') /\ f' = r_fs r
+    | (f, OLoad r, (f', p')) => load_ok (p_dwb p') f r (p_vars p') /\ f' = r_fs r
     | _ => True
     end.
 
@@ -270,33 +269,37 @@ Section Codec.
     destruct st as [f p]. intros [G [Ci Cm]] Hs. cbn [fst snd] in *.
     assert (C : clean p) by (split; assumption).
     assert (GI : inv (f, p)) by (split; assumption).
-    destruct s as [| | |s' m z|d]; cbn [Reload.do_step].
+    destruct s as [| | |b|s' m z|d]; cbn [Reload.do_step].
     - (* import *)
       destruct (p_module p) as [ms|] eqn:Em; cbn [fst snd obs_ok].
       + split; [exact I|exact GI].
-      + unfold find_spec, create_module. cbn [p_next p_icache p_module p_vars].
+      + unfold find_spec, create_module. cbn [p_next p_icache p_module p_vars p_dwb].
         set (sp := mkspec (p_next p) None).
-        set (p1 := mkproc (S (p_next p)) (Some sp) (Some sp) (p_vars p)).
+        set (p1 := mkproc (S (p_next p)) (Some sp) (Some sp) (p_vars p) (p_dwb p)).
         assert (C1 : clean p1) by (split; intros x E; inversion E; reflexivity).
-        destruct (exec_h_ok f p1 sp G C1 eq_refl) as (L & G' & C' & M').
+        destruct (exec_h_ok f p1 sp G C1 eq_refl) as (L & G' & C' & M' & D').
         destruct (exec_module_h f p1 sp) as [r p2] eqn:Ex. cbn [fst snd] in *.
-        destruct (r_raised r) eqn:Er; cbn [fst snd obs_ok p_vars].
-        * split; [split; [exact L|reflexivity]|]. split; [exact G'|].
+        change (p_dwb p1) with (p_dwb p) in *.
+        destruct (r_raised r) eqn:Er; cbn [fst snd obs_ok p_vars p_dwb].
+        * rewrite D'. split; [split; [exact L|reflexivity]|]. split; [exact G'|].
           destruct C' as [C'1 C'2]. split; [exact C'1|]. intros x E. discriminate E.
-        * split; [split; [exact L|reflexivity]|]. now split.
+        * rewrite D'. split; [split; [exact L|reflexivity]|]. now split.
     - (* reload *)
       destruct (p_module p) as [ms|] eqn:Em; cbn [fst snd obs_ok].
-      + unfold find_spec. cbn [p_next p_icache p_module p_vars].
+      + unfold find_spec. cbn [p_next p_icache p_module p_vars p_dwb].
         set (sp := mkspec (p_next p) None).
-        set (p1 := mkproc (S (p_next p)) (p_icache p) (Some sp) (p_vars p)).
+        set (p1 := mkproc (S (p_next p)) (p_icache p) (Some sp) (p_vars p) (p_dwb p)).
         assert (C1 : clean p1) by (split; [exact Ci|intros x E; inversion E; reflexivity]).
-        destruct (exec_h_ok f p1 sp G C1 eq_refl) as (L & G' & C' & M').
+        destruct (exec_h_ok f p1 sp G C1 eq_refl) as (L & G' & C' & M' & D').
         destruct (exec_module_h f p1 sp) as [r p2] eqn:Ex. cbn [fst snd] in *.
-        split; [split; [exact L|reflexivity]|]. now split.
+        change (p_dwb p1) with (p_dwb p) in *.
+        rewrite D'. split; [split; [exact L|reflexivity]|]. now split.
       + split; [exact I|exact GI].
     - (* invalidate_caches *)
       cbn [fst snd obs_ok]. split; [exact I|]. split; [exact G|].
       split; [intros x E; discriminate E|exact Cm].
+    - (* dont_write_bytecode *)
+      cbn [fst snd obs_ok]. split; [exact I|]. split; [exact G|]. now split.
     - (* edit *)
       cbn [fst snd obs_ok]. split; [exact I|]. split; [|now split].
       destruct G as [B S]. split; [exact B|exact Hs].
@@ -328,8 +331,8 @@ Section Codec.
           exists d, f_cache f = Some d /\ header_matches importer_magic (f_mtime f) (f_size f) d)
     /\ (f_cache f = Some (written f) -> in_range (f_mtime f) = true -> in_range (f_size f) = true ->
           r_trace r = [EvRunCached c])
-    /\ (r_raised r = None -> dwb = false -> f_cache f' = Some (written f))
-    /\ (r_raised r <> None \/ dwb = true -> f' = f)
+    /\ (r_raised r = None -> p_dwb p' = false -> f_cache f' = Some (written f))
+    /\ (r_raised r <> None \/ p_dwb p' = true -> f' = f)
     /\ f_src f' = f_src f /\ f_mtime f' = f_mtime f /\ f_size f' = f_size f.
   Proof.
     intros [G H] f r f' p' Hin.
